@@ -156,6 +156,25 @@ struct Sub {
 
 const PEER2: [u8; 32] = [0xee; 32];
 
+/// What a node says about the availability of a content: the peer and our node answer differently
+/// for the same hash, so that an event or a message carrying the wrong side's answer shows.
+fn status_of(peer: bool, hash: iroh_blobs::Hash) -> ContentStatus {
+    let x = Val::X.hash_len().0;
+    let y = Val::Y.hash_len().0;
+    match (peer, hash == x, hash == y) {
+        (true, true, _) => ContentStatus::Complete,
+        (true, _, true) => ContentStatus::Incomplete,
+        (false, true, _) => ContentStatus::Incomplete,
+        (false, _, true) => ContentStatus::Missing,
+        (true, _, _) => ContentStatus::Missing,
+        (false, _, _) => ContentStatus::Complete,
+    }
+}
+
+fn status_cb(peer: bool) -> iroh_docs::ContentStatusCallback {
+    std::sync::Arc::new(move |hash| Box::pin(async move { status_of(peer, hash) }))
+}
+
 fn peer_entries() -> Vec<Spec> {
     vec![
         Spec::new(0, 1, b"p", 5, Val::X),
@@ -187,7 +206,7 @@ fn exec(seq: &[Ev]) -> Option<(Bad, String, bool)> {
     let mut pre = Sut { store };
     let base = Spec::new(0, 0, b"a", 3, Val::X);
     let _ = pre.remote(ns, base.signed());
-    let h = SyncHandle::spawn(pre.store, None, "c12".into());
+    let h = SyncHandle::spawn(pre.store, Some(status_cb(false)), "c12".into());
     // subscriber 0 is registered through open(OpenOpts::subscribe)
     let (tx0, rx0) = async_channel::unbounded();
     block_on_park(h.open(ns, OpenOpts::default().sync().subscribe(tx0.clone()))).expect("open");
@@ -333,10 +352,23 @@ fn exec(seq: &[Ev]) -> Option<(Bad, String, bool)> {
                     Ok((reply, st)) => {
                         our_state = st;
                         // hand our reply to the peer; its answer is the next message to us
+                        // what we send carries our own answer about each content
+                        if let Some(r) = &reply {
+                            for (e, status) in iroh_docs::verif::message_values(r) {
+                                let want = status_of(false, e.content_hash());
+                                if status != want && last {
+                                    bad.push((
+                                        "outgoing_entries_carry_our_content_status",
+                                        json!({"sent": format!("{status:?}"), "ours": format!("{want:?}")}),
+                                        format!("our reply offers {} with content status {status:?}, our node's answer for that content is {want:?}", crate::universe::show_entry(&e)),
+                                    ));
+                                }
+                            }
+                        }
                         to_us = match reply {
                             None => None,
                             Some(r) => peer
-                                .sync_process(ns, r, [0x11; 32], &mut peer_state)
+                                .sync_process_cb(ns, r, [0x11; 32], &mut peer_state, Some(status_cb(true)))
                                 .expect("peer process"),
                         };
                         if to_us.is_none() {
